@@ -622,10 +622,18 @@ def _mode_attr_sources(ctx: Context, cls: ClassInfo) -> Dict[str, str]:
     out: Dict[str, str] = {}
     for c in [cls] + ctx.prog.bases(cls):
         for m in c.methods.values():
+            fl = flow_of(m.node)
+            rsv = ExprResolver(m.node)
             for n in walk_no_nested(m.node):
                 if isinstance(n, ast.Assign) and len(n.targets) == 1 and isinstance(n.targets[0], ast.Attribute) and isinstance(n.targets[0].value, ast.Name) and n.targets[0].value.id == "self" \
-                        and isinstance(n.value, ast.Attribute) and norm_text(n.value.value) == "self.mode_stats":
-                    out["self." + n.targets[0].attr] = n.value.attr
+                        and isinstance(n.value, ast.Attribute):
+                    base = n.value.value
+                    at = fl.node_containing(n)
+                    # through local aliases (`stats = self.mode_stats`) and the constructor parameter itself
+                    rb = rsv.resolve(base, at) if at is not None else base
+                    txt = norm_text(rb)
+                    if txt in ("self.mode_stats", "mode_stats"):
+                        out["self." + n.targets[0].attr] = n.value.attr
     return out
 
 
